@@ -79,6 +79,7 @@ int pthread_mutex_destroy(pthread_mutex_t *m)
 int pthread_mutex_lock(pthread_mutex_t *m)
 {
 	mtx_lock((struct mtx *)m, "mutex");
+	p_maybe_deliver_locked();
 	return 0;
 }
 
@@ -110,6 +111,7 @@ int pthread_spin_lock(pthread_spinlock_t *l)
 	}
 	*l = sx_tid() + 1;
 	sx_hb_acq((void *)l);
+	p_maybe_deliver_locked();
 	return 0;
 }
 
